@@ -902,19 +902,37 @@ func nobodyTrigger(before, after world) bool {
 	return (!b && exportedToNobody(after)) || (exportedToNobody(before) && !a)
 }
 
-func relabelProviderNobody(before, w world, trigger []string, clause string, d []diffEntry) {
-	if len(d) == 0 || len(trigger) == 0 || clause != "stale-vs-cold-start" || !nobodyTrigger(before, w) || !usesKsvcProvider(w) {
-		return
+// nobodyTracker: the stale service index of finding 8 PERSISTS until a services rebuild: set by a step that takes k-svc
+// absent <-> exported-to-nobody, cleared by a later step that certainly rebuilds the service index and pushes (create /
+// update / delete of a ServiceEntry, create / delete of another Kubernetes Service, a visible change of k-svc itself,
+// MeshConfig or network-gateway changes: Forced pushes). Pod-only updates do not clear it.
+type nobodyTracker struct{ stale bool }
+
+// step must be called BEFORE world w is updated with step s
+func (t *nobodyTracker) step(s step, w world) {
+	after := w.clone()
+	if s.Op == "delete" {
+		delete(after, s.ID)
+	} else {
+		after[s.ID] = s.Variant
 	}
-	// AMONG the changed objects there is the Service (co-triggers are allowed: whatever LDS difference THEY cause outside
-	// the provider's typed configs still fails the confinement test below)
-	among := false
-	for _, id := range trigger {
-		if id == "k-svc" {
-			among = true
-		}
+	switch {
+	case s.ID == "k-svc":
+		t.stale = nobodyTrigger(w, after) || (t.stale && exportedToNobody(w) && exportedToNobody(after))
+	case strings.HasPrefix(s.ID, "se-") || strings.HasPrefix(s.ID, "am-se") || isMesh(s.ID) || s.ID == "k-nwgw":
+		t.stale = false
+	case kubeIndex[s.ID] != nil && !kubeIndex[s.ID].PodOnly && !kubeIndex[s.ID].SliceOnly && !kubeIndex[s.ID].Permanent && s.Op != "update":
+		t.stale = false
 	}
-	if !among {
+}
+
+func relabelProviderNobody(nobodyStale bool, before, w world, trigger []string, clause string, d []diffEntry) {
+	// at this or an EARLIER step the Service went absent <-> exported-to-nobody and no services rebuild happened since
+	// (nobodyStale), a provider-backed object uses the provider NOW; whichever clause shows it (a cold server differs at
+	// once; a fresh client of the same server differs once the index healed and the long-lived proxy was not re-pushed)
+	_ = clause
+	_ = trigger
+	if len(d) == 0 || !(nobodyStale || nobodyTrigger(before, w)) || !usesKsvcProvider(w) {
 		return
 	}
 	for _, x := range d {
@@ -1335,6 +1353,8 @@ func runCase(c caseDef) caseResult {
 	// at some step (finding 3), hosts whose endpoint membership changed at some step (finding 4)
 	zeroed, touched := map[string]bool{}, map[string]bool{}
 	dnsZeroed := dnsZeroTracker{}
+	nobody := &nobodyTracker{}
+	nobodySeen := false // the tracker was set at some step since the last comparison
 	burst := 0
 	pushes, skips := 0, 0
 	respCount := func() map[string]int {
@@ -1376,7 +1396,7 @@ func runCase(c caseDef) caseResult {
 		}
 		relabelProviderUnimported(wPrev, w, trigger, d)
 		relabelSidecarSwitchesService(w, trigger, d)
-		relabelProviderNobody(wPrev, w, trigger, clause, d)
+		relabelProviderNobody(nobody.stale || nobodySeen, wPrev, w, trigger, clause, d)
 		relabelStoreAhead(heldDeletes, parkedKeys, d)
 		relabelOwnLocality(connClasses, w, d)
 		if e != "" {
@@ -1455,6 +1475,7 @@ func runCase(c caseDef) caseResult {
 		}
 		if compared {
 			trigger, wPrev, compared = nil, w.clone(), false
+			nobodySeen = nobody.stale
 			heldDeletes, parkedKeys = nil, nil
 		}
 		if gate != nil && s.Op == "delete" {
@@ -1467,6 +1488,10 @@ func runCase(c caseDef) caseResult {
 		}
 		if err := st.apply(s.Op, s.ID, s.Variant, w); err != nil {
 			return caseResult{Verdict: fmt.Sprintf("FAIL apply-error step=%d %s", i+1, wire.Enc(err.Error()))}
+		}
+		nobody.step(s, w)
+		if nobody.stale {
+			nobodySeen = true
 		}
 		for _, h := range dnsZeroed.step(s, w) {
 			for k, v := range ignore {
